@@ -536,6 +536,15 @@ func Leaves(full bool) []*Spec {
 	add(fixed("bytestring:hostile", func(k string) zapcore.Field { return zap.ByteString(k, []byte(Hostile)) }, jsonx.S(FixUTF8(Hostile))))
 	add(fixed("binary", func(k string) zapcore.Field { return zap.Binary(k, []byte(Hostile)) }, jsonx.S(base64.StdEncoding.EncodeToString([]byte(Hostile)))))
 	add(fixed("binary:empty", func(k string) zapcore.Field { return zap.Binary(k, nil) }, jsonx.S("")))
+	// sizes around the base64 quantum (3) and around 64 / 1024 bytes (chunked encoders pad per chunk)
+	for _, n := range []int{1, 2, 3, 4, 63, 64, 65, 66, 127, 128, 129, 1023, 1024, 1025, 3000} {
+		b := make([]byte, n)
+		for i := range b {
+			b[i] = byte(i*7 + n)
+		}
+		bb := b
+		add(fixed("binary:len-"+strconv.Itoa(n), func(k string) zapcore.Field { return zap.Binary(k, bb) }, jsonx.S(base64.StdEncoding.EncodeToString(bb))))
+	}
 	// durations
 	for _, d := range []time.Duration{0, 1, -1, 1500 * time.Millisecond, math.MinInt64, math.MaxInt64, 999999, -1000001} {
 		d := d
